@@ -7,6 +7,7 @@
 #include "api.h"
 #include "xrayglob.h"
 #include <unistd.h>
+#include <fcntl.h>
 extern long W_over, W_live, W_files;
 
 /* ------------------------------------------------------------------ fold table */
@@ -36,18 +37,31 @@ static void jstr_s(char *o, const char *s) {
   *o++ = '"'; for (; *s && o - wbuf < 900; s++) { unsigned char c = (unsigned char)*s; if (c == '"' || c == '\\') { *o++ = '\\'; *o++ = c; } else if (c < 0x20 || c >= 0x7f) o += sprintf(o, "\\u%04x", c); else *o++ = c; } *o++ = '"'; *o = 0;
 }
 /* one observation of a double-valued call: v with slot e, v2 without slot */
+/* "no call ever stores an error over an existing one": the call once more with a slot that already holds an error; afterwards the slot
+ * must hold the very same object with the same code and text.  The library's warning about the attempted overwrite is not interesting. */
+static int KEEP = 1; static int fd_null = -1, fd_err = -1; static xrl_error *occ_e, *occ_before;
+static xrl_error **occupied(void) {
+  if (fd_null < 0) { fd_null = open("/dev/null", O_WRONLY); fd_err = dup(2); }
+  occ_e = NULL; xrl_set_error_literal(&occ_e, XRL_ERROR_IO, "the caller's earlier error"); occ_before = occ_e;
+  fflush(stderr); dup2(fd_null, 2); return &occ_e;
+}
+static void occupied_done(void) {
+  fflush(stderr); dup2(fd_err, 2);
+  KEEP = occ_e == occ_before && occ_e && occ_e->code == XRL_ERROR_IO && occ_e->message && !strcmp(occ_e->message, "the caller's earlier error");
+  if (occ_e == occ_before) xrl_clear_error(&occ_e); else occ_e = NULL;      /* a replaced or freed object is not touched again */
+}
 static int REP = 1;      /* did a third call (again with a slot) reproduce the first one: value, error presence, code, message */
 static void observe(const char *fn, const char *argc, double v, xrl_error *e, double v2, long over, const char *wit) {
   char key[512];
-  snprintf(key, sizeof key, "\"fn\":\"%s\",\"argc\":\"%s\",\"kind\":\"double\",\"ret\":\"%s\",\"slot\":\"%s\",\"code\":%d,\"msg\":%d,\"over\":%d,\"same\":%d,\"rep\":%d",
-           fn, argc, rcls(v), e ? "err" : "empty", e ? (int)e->code : -1, e ? (e->message && e->message[0]) : 0, over > 0, biteq(v, v2), REP);
-  fold(key, wit); REP = 1;
+  snprintf(key, sizeof key, "\"fn\":\"%s\",\"argc\":\"%s\",\"kind\":\"double\",\"ret\":\"%s\",\"slot\":\"%s\",\"code\":%d,\"msg\":%d,\"over\":%d,\"same\":%d,\"rep\":%d,\"keep\":%d",
+           fn, argc, rcls(v), e ? "err" : "empty", e ? (int)e->code : -1, e ? (e->message && e->message[0]) : 0, over > 0, biteq(v, v2), REP, KEEP);
+  fold(key, wit); REP = 1; KEEP = 1;
 }
 static void observe_ptr(const char *fn, const char *argc, int nonnull, xrl_error *e, int nonnull2, long over, const char *wit) {
   char key[512];
-  snprintf(key, sizeof key, "\"fn\":\"%s\",\"argc\":\"%s\",\"kind\":\"ptr\",\"ret\":\"%s\",\"slot\":\"%s\",\"code\":%d,\"msg\":%d,\"over\":%d,\"same\":%d",
-           fn, argc, nonnull ? "ptr" : "null", e ? "err" : "empty", e ? (int)e->code : -1, e ? (e->message && e->message[0]) : 0, over > 0, nonnull == nonnull2);
-  fold(key, wit);
+  snprintf(key, sizeof key, "\"fn\":\"%s\",\"argc\":\"%s\",\"kind\":\"ptr\",\"ret\":\"%s\",\"slot\":\"%s\",\"code\":%d,\"msg\":%d,\"over\":%d,\"same\":%d,\"keep\":%d",
+           fn, argc, nonnull ? "ptr" : "null", e ? "err" : "empty", e ? (int)e->code : -1, e ? (e->message && e->message[0]) : 0, over > 0, nonnull == nonnull2, KEEP);
+  fold(key, wit); KEEP = 1;
 }
 static void observe_int(const char *fn, const char *argc, int v, xrl_error *e, int v2, long over, const char *wit) {
   char key[512];
@@ -102,6 +116,7 @@ static void drive_numeric(const ApiFn *f, int thorough) {
         double v2 = api_call(f, ia, da, s, NULL);
         { xrl_error *e3 = NULL; double v3 = api_call(f, ia, da, s, &e3);
           REP = biteq(v, v3) && (e == NULL) == (e3 == NULL) && (!e || (e->code == e3->code && !strcmp(e->message ? e->message : "", e3->message ? e3->message : ""))); xrl_clear_error(&e3); }
+        { static unsigned tick; if (ns || (tick++ & 3) == 0) { xrl_error **oe = occupied(); (void)api_call(f, ia, da, s, oe); occupied_done(); } }
         char argc[128]; int o = 0; argc[0] = 0;
         if (ns) o += sprintf(argc + o, "%s,", scls(s));
         for (int i = 0; i < ni; i++) o += sprintf(argc + o, "%s,", icls(ia[i]));
@@ -129,6 +144,7 @@ static void drive_other(int thorough) {
   for (int i = 0; i < NF; i++) {
     xrl_error *e = NULL; long o0 = W_over; struct compoundData *c = CompoundParser(FORMULAS[i], &e); long over = W_over - o0;
     struct compoundData *c2 = CompoundParser(FORMULAS[i], NULL);
+    { xrl_error **oe = occupied(); struct compoundData *c4 = CompoundParser(FORMULAS[i], oe); occupied_done(); if (c4) FreeCompoundData(c4); }
     wit_s(FORMULAS[i]); observe_ptr("CompoundParser", scls(FORMULAS[i]), c != NULL, e, c2 != NULL, over, wbuf);
     if (c) {   /* a successful parse must describe a finite, positive composition */
       int fin = isfinite(c->molarMass) && c->molarMass > 0 && isfinite(c->nAtomsAll) && c->nAtomsAll > 0 && c->nElements > 0;
@@ -165,8 +181,10 @@ static void drive_other(int thorough) {
   }
   for (int i = 0; i < NF; i++) {
     xrl_error *e = NULL; long o0 = W_over; struct compoundDataNIST *c = GetCompoundDataNISTByName(FORMULAS[i], &e); long over = W_over - o0; struct compoundDataNIST *c2 = GetCompoundDataNISTByName(FORMULAS[i], NULL);
+    { xrl_error **oe = occupied(); struct compoundDataNIST *c4 = GetCompoundDataNISTByName(FORMULAS[i], oe); occupied_done(); if (c4) FreeCompoundDataNIST(c4); }
     wit_s(FORMULAS[i]); observe_ptr("GetCompoundDataNISTByName", scls(FORMULAS[i]), c != NULL, e, c2 != NULL, over, wbuf); if (c) FreeCompoundDataNIST(c); if (c2) FreeCompoundDataNIST(c2); xrl_clear_error(&e);
     e = NULL; o0 = W_over; struct radioNuclideData *r = GetRadioNuclideDataByName(FORMULAS[i], &e); over = W_over - o0; struct radioNuclideData *r2 = GetRadioNuclideDataByName(FORMULAS[i], NULL);
+    { xrl_error **oe = occupied(); struct radioNuclideData *r4 = GetRadioNuclideDataByName(FORMULAS[i], oe); occupied_done(); if (r4) FreeRadioNuclideData(r4); }
     observe_ptr("GetRadioNuclideDataByName", scls(FORMULAS[i]), r != NULL, e, r2 != NULL, over, wbuf); if (r) FreeRadioNuclideData(r); if (r2) FreeRadioNuclideData(r2); xrl_clear_error(&e);
   }
   { xrl_error *e = NULL; int n; long o0 = W_over; char **l = GetCompoundDataNISTList(&n, &e); long over = W_over - o0; char **l2 = GetCompoundDataNISTList(NULL, NULL); wit_i(n, 0, 0);
